@@ -19,10 +19,26 @@ pub enum K {
     CallB2,
     CallA,
     Lift,
+    /// `leaf and X`: X as a later operand of a chain (adds no nesting itself)
+    ChainR,
+    /// `X or leaf`: X as the first operand of a chain
+    ChainL,
 }
-pub const KS: [K; 7] = [K::Paren, K::Not, K::Quant, K::CallB, K::CallB2, K::CallA, K::Lift];
+pub const KS: [K; 9] = [
+    K::Paren,
+    K::Not,
+    K::Quant,
+    K::CallB,
+    K::CallB2,
+    K::CallA,
+    K::Lift,
+    K::ChainR,
+    K::ChainL,
+];
 
 struct Names {
+    num: usize,
+    lnum: usize,
     neg: usize,
     nboth: usize,
     idlt: usize,
@@ -32,6 +48,8 @@ struct Names {
 
 fn names(env: &Env) -> Names {
     Names {
+        num: env.field("num_o").unwrap(),
+        lnum: env.field("l_num_o").unwrap(),
         neg: env.func("neg1").unwrap(),
         nboth: env.func("nboth1").unwrap(),
         idlt: env.func("idlt1").unwrap(),
@@ -43,6 +61,7 @@ fn names(env: &Env) -> Names {
 fn as_arg(inner: Expr) -> Arg {
     match inner {
         Expr::Cmp(p, CmpOp::IsTrue) => Arg::Path(p),
+        e @ Expr::Comb(..) => Arg::Logical(Expr::paren(e)),
         e => Arg::Logical(e),
     }
 }
@@ -60,13 +79,14 @@ fn wrap(nm: &Names, k: K, inner: Expr, arr: bool) -> Option<(Expr, bool)> {
     };
     Some(match k {
         K::Paren => (Expr::paren(inner), arr),
-        K::Not => (Expr::not(inner), arr),
+        K::Not => (Expr::not(inner).normalize(), arr),
         K::Quant => {
             if !arr {
                 return None;
             }
             let arg = match inner {
                 Expr::Cmp(p, CmpOp::IsTrue) => QArg::Path(p),
+                e @ Expr::Comb(..) => QArg::Logical(Box::new(Expr::paren(e))),
                 e => QArg::Logical(Box::new(e)),
             };
             (Expr::Quant(QOp::Any, arg), false)
@@ -97,6 +117,24 @@ fn wrap(nm: &Names, k: K, inner: Expr, arr: bool) -> Option<(Expr, bool)> {
                 return None;
             }
             (call(nm.lift, vec![as_arg(inner)]), true)
+        }
+        K::ChainR | K::ChainL => {
+            let leaf = if arr {
+                Expr::Cmp(
+                    Path {
+                        base: Base::Field(nm.lnum),
+                        idx: vec![Idx::Each],
+                    },
+                    CmpOp::Ord(OrdOp::Ne, Lit::Int(2)),
+                )
+            } else {
+                Expr::Cmp(Path::field(nm.num), CmpOp::Ord(OrdOp::Ne, Lit::Int(2)))
+            };
+            if k == K::ChainR {
+                (Expr::Comb(LogOp::And, vec![leaf, inner]), arr)
+            } else {
+                (Expr::Comb(LogOp::Or, vec![inner, leaf]), arr)
+            }
         }
     })
 }
@@ -349,7 +387,7 @@ pub fn run(run: &Run) {
     let seed = run.opts.seed;
 
     // ---- exhaustive: every construct sequence up to depth D against every d in 0..=8
-    let depth = if run.opts.thorough() { 8 } else { 6 };
+    let depth = if run.opts.thorough() { 7 } else { 5 };
     if run.opts.wants("shapes") && !run.is_child() {
         let shapes = enumerate(env, depth);
         run.note("construct_sequences", json!(shapes.len()));
